@@ -27,6 +27,7 @@ type item struct {
 	QoS  packet.QOS
 	Dup  bool
 	N    int
+	Op   string // own: unsub sub pub1 (a call of the application on the same client)
 }
 
 func (i item) String() string {
@@ -35,6 +36,8 @@ func (i item) String() string {
 		return "drop+resume"
 	case "rel":
 		return fmt.Sprintf("PUBREL(%d)", i.ID)
+	case "own":
+		return "app:" + i.Op
 	}
 	d := ""
 	if i.Dup {
@@ -85,8 +88,17 @@ func run(r *h.Run, sc scenario) result {
 		}
 		// the scripted broker only answers CONNECT; everything else is scripted
 		c.Peer.AutoReply = func(g packet.Generic) []packet.Generic {
-			if _, ok := g.(*packet.Connect); ok {
+			switch v := g.(type) {
+			case *packet.Connect:
 				return []packet.Generic{&packet.Connack{SessionPresent: c.N > 1}}
+			case *packet.Unsubscribe:
+				return []packet.Generic{&packet.Unsuback{ID: v.ID}}
+			case *packet.Subscribe:
+				return []packet.Generic{&packet.Suback{ID: v.ID, ReturnCodes: []packet.QOS{0}}}
+			case *packet.Publish:
+				if v.Message.QOS == 1 {
+					return []packet.Generic{&packet.Puback{ID: v.ID}}
+				}
 			}
 			return nil
 		}
@@ -227,6 +239,22 @@ func run(r *h.Run, sc scenario) result {
 			_ = conn.Peer.Send(p)
 		case "rel":
 			_ = conn.Peer.Send(&packet.Pubrel{ID: it.ID})
+		case "own":
+			// the application uses the same client for a flow of its own; the
+			// packet ids of the two directions are independent
+			var f client.GenericFuture
+			var err error
+			switch it.Op {
+			case "unsub":
+				f, err = cur.Unsubscribe("own/x")
+			case "sub":
+				f, err = cur.Subscribe("own/x", 0)
+			default:
+				f, err = cur.Publish("own/y", []byte("own"), 1, false)
+			}
+			if err == nil && f != nil {
+				_ = f.Wait(2 * time.Second)
+			}
 		}
 		if !fence() {
 			up = false
@@ -555,7 +583,7 @@ func interesting(sc []item) bool {
 func TestCheck(t *testing.T) {
 	r := h.New("C10", "fault_enumeration")
 	depth := r.Pick(3, 4)
-	r.Rule(fmt.Sprintf("all scripted-broker scripts of length <= %d over {PUBLISH q2(id 1,2), PUBLISH q2(1,dup), PUBLISH q1(1), PUBLISH q0, PUBREL(1,2), drop+resume} (plus sampled longer ones with 3 ids in thorough) and all scripts of length <= 3 over {PUBLISH q1(1), PUBLISH q1(1,dup), PUBLISH q1(2,dup), drop+resume} x callback plans {all nil, error at the 1st / 2nd / 3rd application callback} x both callback timing modes, each first run without faults and then with every single client-side send fault (k-th Send of each connection, before/after: i.e. at every acknowledgement the client writes); a QoS 0 marker through the client's single processor fences every step; a completion phase retransmits PUBREL for every PUBREC without PUBCOMP. Oracle: model driven by what the client received (event log), callback invocations, acknowledgements written. Non-trivial = scripts with a complete or interrupted QoS 2 handshake; distinct by (script, plan, mode, fault)", depth))
+	r.Rule(fmt.Sprintf("all scripted-broker scripts of length <= %d over {PUBLISH q2(id 1,2), PUBLISH q2(1,dup), PUBLISH q1(1), PUBLISH q0, PUBREL(1,2), drop+resume} (plus sampled longer ones with 3 ids in thorough) all scripts of length <= 3 over {PUBLISH q1(1), PUBLISH q1(1,dup), PUBLISH q1(2,dup), drop+resume}, and scripts mixing the QoS 2 handshakes of ids 1,2 with flows of the application's own on the same client (Subscribe, Unsubscribe, Publish QoS 1, whose acknowledgements carry the same numeric ids) x callback plans {all nil, error at the 1st / 2nd / 3rd application callback} x both callback timing modes, each first run without faults and then with every single client-side send fault (k-th Send of each connection, before/after: i.e. at every acknowledgement the client writes); a QoS 0 marker through the client's single processor fences every step; a completion phase retransmits PUBREL for every PUBREC without PUBCOMP. Oracle: model driven by what the client received (event log), callback invocations, acknowledgements written. Non-trivial = scripts with a complete or interrupted QoS 2 handshake; distinct by (script, plan, mode, fault)", depth))
 	r.Assume("exactly-once is asserted in the default callback mode only (announce-on-publish documents redelivery); deliveries the application rejects are not counted")
 	all := scripts(depth, 2)
 	rng := r.Rand("c10")
@@ -581,6 +609,23 @@ func TestCheck(t *testing.T) {
 		for _, plan := range []string{"", "e", "ne", "nne"} {
 			base = append(base, scenario{Script: s, Plan: plan, Early: (i+len(plan))%3 == 0})
 		}
+	}
+	// the application's own flows (their acknowledgements carry the same numeric
+	// packet ids as the inbound messages) in between the inbound handshakes
+	ownAlpha := []item{{Kind: "pub", ID: 1, QoS: 2}, {Kind: "rel", ID: 1}, {Kind: "pub", ID: 2, QoS: 2}, {Kind: "rel", ID: 2}, {Kind: "own", Op: "unsub"}, {Kind: "own", Op: "sub"}, {Kind: "own", Op: "pub1"}}
+	for i, s := range scriptsOver(ownAlpha, r.Pick(3, 4)) {
+		own, inbound := false, false
+		for _, it := range s {
+			if it.Kind == "own" {
+				own = true
+			} else {
+				inbound = true
+			}
+		}
+		if !own || !inbound {
+			continue
+		}
+		base = append(base, scenario{Script: s, Plan: []string{"", "e", "ne"}[i%3], Early: i%5 == 0})
 	}
 	if !r.Quick() {
 		long := scripts(5, 3)
